@@ -426,14 +426,17 @@ void runCase(uint64_t seed, int steps, bool scripts, const char *sig) {
 
 int main(int argc, char **argv) {
     rt::init(argc, argv);
-    bool scripts = rt::st().prop == "C10";
-    gProp = scripts ? "C10" : "C05";
-    int maxSteps = (int) rt::optInt("steps", scripts ? 60 : 150);
+    bool allScripted = rt::st().prop == "C10";
+    unsigned scriptShare = (unsigned) rt::optInt("scriptshare", 150);   // C05 runs: per mille of histories whose callbacks act on the Subject
+    int maxStepsFlat = (int) rt::optInt("steps", 150), maxStepsScripted = (int) rt::optInt("steps", 60);
     for (uint64_t c = rt::st().from; c < rt::st().from + rt::st().count; ++c) {
         rt::setCase(c);
         rt::Rng rng(rt::mix(rt::st().seed, c));
         gHist.clear();
         gCaseFailed = false;
+        bool scripts = allScripted || rng.chance(scriptShare);
+        gProp = scripts ? "C10" : "C05";
+        int maxSteps = scripts ? maxStepsScripted : maxStepsFlat;
         int steps = (int) (rng.chance(250) ? rng.range(1, 12) : rng.range(10, maxSteps));
         uint64_t s = rng.next();
         switch (rng.below(6)) {
